@@ -55,6 +55,10 @@ func init() {
 		utlsPath + ".verifAssume": extVerifAssume,
 		utlsPath + ".verifAssert": extVerifAssert,
 		utlsPath + ".verifAssertClass": extVerifAssertClass,
+		utlsPath + ".verifAssertPossible": func(fr *frame, a []value) value {
+			fr.ctx().AssertPossible(boolTerm(a[0]), strArg(a[1]), strArg(a[2]), callerPos(fr))
+			return nil
+		},
 		utlsPath + ".verifReach":       extVerifReach,
 		utlsPath + ".verifObserve":     extVerifObserve,
 		utlsPath + ".verifUF":          extVerifUF,
